@@ -612,20 +612,21 @@ theorem restoreCtx_ok {c : Ctx} {r : R Out} {o st'} (h : restoreCtx c r = .ok (o
   | ok a => obtain ⟨o2, st2⟩ := a; cases h; exact ⟨st2, rfl, rfl⟩
 
 /-- the parent-name expression `e` evaluates to the template name `name`, without touching the state,
-    in every context an extends chain is walked in: own variables `vars`, no macros, no parent scopes.
-    Covers static names (`Link_str`) and names taken from a variable (`Link_var`). -/
+    in every context an extends chain is walked in: own variables `vars` — whatever macros and enclosing
+    scopes (an extending template may itself have been included) the context has.
+    Covers static names (`Link_str`) and names taken from a variable of the own scope (`Link_var`). -/
 def Link (E : Env) (vars : List (Bytes × Val)) (e : Expr) (name : Bytes) : Prop :=
-  ∀ st : St, st.ctx.vars = vars → st.ctx.macros = [] → st.ctx.parents = [] →
+  ∀ st : St, st.ctx.vars = vars →
     ∃ v fl, evalX E true e st = .ok ((v, fl), st) ∧ toStr v = .ok name
 
 theorem Link_str (E : Env) (vars) (name : Bytes) : Link E vars (.str name) name :=
-  fun _ _ _ _ => ⟨.str name, [], rfl, rfl⟩
+  fun _ _ => ⟨.str name, [], rfl, rfl⟩
 
 theorem getKV_nil {α} (k : Bytes) : getKV k ([] : List (Bytes × α)) = none := rfl
 
 theorem Link_var (E : Env) (vars) (x name : Bytes) (h : getKV x vars = some (.str name)) :
     Link E vars (.var x) name := by
-  intro st hv hm hp
+  intro st hv
   refine ⟨.str name, [], ?_, rfl⟩
   simp only [evalX, Ctx.hasVar, Ctx.getVar, hv, h, Option.isSome_some, Bool.true_or, if_true, pure_eq_ok]
 
@@ -650,9 +651,10 @@ theorem lastTpl_eq_getLast (p : Bytes × List Node) (r : List (Bytes × List Nod
   | cons q r ih => simp only [lastTpl, ih, List.getLast_cons_cons]
 
 /-- the context the base template of a chain of length ≥ 2 is rendered in: the variables of the most
-    derived template's context, the sandbox flags, and the block table of the whole chain -/
+    derived template's context and its enclosing scopes (none for a top-level render; the includer's for an
+    extending template that was included), the sandbox flags, and the block table of the whole chain -/
 def chainCtx (E : Env) (chain : List (Bytes × List Node)) (c : Ctx) : Ctx :=
-  { vars := c.vars, sandboxed := E.F.propExtends && c.sandboxed, inside := c.inside,
+  { vars := c.vars, parents := c.parents, sandboxed := E.F.propExtends && c.sandboxed, inside := c.inside,
     blockDefs := regAll chain c.blockDefs }
 
 /-- state after `renderRoot` registered the template's blocks -/
@@ -685,32 +687,30 @@ theorem extends_eq {E : Env} {go : Go} {tpl : Bytes} {e : Expr} {st : St} {v fl}
 
 theorem chain_walk (E : Env) (vars : List (Bytes × Val)) :
     ∀ (rest : List (Bytes × List Node)) (p q : Bytes × List Node) (st : St) (f : Nat),
-      ChainOK E vars (p :: q :: rest) → st.ctx.vars = vars → st.ctx.macros = [] → st.ctx.parents = [] →
+      ChainOK E vars (p :: q :: rest) → st.ctx.vars = vars →
       run E (f + (rest.length + 2)) (.root p.1) st =
         restoreCtx (regSt p.1 p.2 st).ctx
           (renderNodes E (run E f) (lastTpl q rest).1 (lastTpl q rest).2
             { st with ctx := chainCtx E (p :: q :: rest) st.ctx })
-  | [], p, q, st, f, hc, hv, hm, hp => by
+  | [], p, q, st, f, hc, hv => by
     obtain ⟨htp, ⟨e, hle, hlink⟩, hrel, htq, hlq⟩ := hc
     show run E ((f + 1) + 1) (.root p.1) st = _
     simp only [run]
     rw [renderRoot_extends st htp hle]
-    obtain ⟨v, fl, h1, h2⟩ := hlink (regSt p.1 p.2 st) hv hm hp
+    obtain ⟨v, fl, h1, h2⟩ := hlink (regSt p.1 p.2 st) hv
     rw [extends_eq h1 h2 hrel htq]
     simp only [run]
     rw [renderRoot_base _ htq hlq]
-    have hp' : (regSt p.1 p.2 st).ctx.parents = [] := hp
-    simp only [extSt, hp']
     rfl
-  | r :: rest, p, q, st, f, hc, hv, hm, hp => by
+  | r :: rest, p, q, st, f, hc, hv => by
     obtain ⟨htp, ⟨e, hle, hlink⟩, hrel, hc'⟩ := hc
     have htq : E.tpl? q.1 = some q.2 := hc'.1
     show run E ((f + (rest.length + 2)) + 1) (.root p.1) st = _
     simp only [run]
     rw [renderRoot_extends st htp hle]
-    obtain ⟨v, fl, h1, h2⟩ := hlink (regSt p.1 p.2 st) hv hm hp
+    obtain ⟨v, fl, h1, h2⟩ := hlink (regSt p.1 p.2 st) hv
     rw [extends_eq h1 h2 hrel htq]
-    have ih := chain_walk E vars rest q r (extSt E (regSt p.1 p.2 st)) f hc' hv rfl hp
+    have ih := chain_walk E vars rest q r (extSt E (regSt p.1 p.2 st)) f hc' hv
     rw [ih, restoreCtx_restoreCtx]
     have : ∀ x y : Bool, (x && (x && y)) = (x && y) := by decide
     simp only [chainCtx, regSt, extSt, freshCtx, regAll, List.foldl_cons, lastTpl, this]
